@@ -2,7 +2,7 @@
 C01, PBF part: write → read round trip of libosmium's PBF writer and decoder (models in
 Osmium/Model/Pbf.lean, Delta.lean, StringTable.lean; tie to the code: tools/props/c01_pbf.py).
 State of the code: after the fixes 04636d9 (changeset 2^32−1 accepted), 4309424 (exact header bbox),
-9b8b2e0 (byte-size estimates, pbf_error above 32 MiB).
+9b8b2e0 (byte-size estimates, pbf_error above 32 MiB), 77d5451 (the writer also refuses a Blob above 32 MiB).
 
 Domain (property text): ids in (−2^63, 2^63) — here even the whole int64 range —, version and uid < 2^31,
 any uint32 timestamp / changeset, locations any int32 pair, member types node/way/relation, strings
@@ -15,9 +15,11 @@ block-limit clause (`pbf_block_within_limits`: every emitted data blob has ≤ 8
 induction over the object sequence), the soundness of the size estimate for ALL blocks (dense included), the
 DenseNodes round trip (`pbf_fields_roundtrip_dense`: the `while (!ids.empty())` loop over all rows, every
 option vector), the bytes level of node / way / relation messages, and the two decoder passes over one
-PrimitiveBlock given what its items decode to (`pbf_block_roundtrip_partial`).
-Not proved (see the comment at the end): the writer invariant that links the items of a block to the object
-sequence (hence the unconditional block and file round trips).
+PrimitiveBlock given what its items decode to (`pbf_block_decode_items`), the writer invariant that links
+the items / dense rows of the block under construction to the object sequence (Lemmas/PbfFileInv, PbfFileW), hence
+the UNCONDITIONAL block round trip (`pbf_block_roundtrip`) and the file round trip (`pbf_file_roundtrip`:
+`decodeFile (encodeFile o h objs) = (projectHeader o h, objs.filterMap (project o))` for every option vector and
+every object sequence of the domain whenever the Writer reported no error).
 -/
 import Osmium.Lemmas.PbfObj
 import Osmium.Lemmas.PbfBytes
@@ -25,6 +27,7 @@ import Osmium.Lemmas.PbfHeader
 import Osmium.Lemmas.PbfSize2
 import Osmium.Lemmas.PbfDense3
 import Osmium.Lemmas.PbfBlock
+import Osmium.Lemmas.PbfFile
 
 namespace Osmium.Pbf
 
@@ -221,15 +224,11 @@ example :
 
 /-! ## one PrimitiveBlock -/
 
-/-- `_partial` (of `pbf_block_roundtrip`): both passes of `PBFPrimitiveBlockDecoder` over the block message
-    "string table, one group of node / way / relation items" return the objects the items decode to
-    (`ItemsDec`: item i, parsed with the block's string table, gives object i — supplied per item by
-    `pbf_bytes_roundtrip_node/way/relation`).  Missing for the unconditional theorem: the invariant of
-    `WState.write`/`Block.addItem` that the items of the block under construction are the serialized messages
-    of the objects added so far (and their `ItemsDec` under the growing table, by `Ext` monotonicity), the
-    same composition for the dense group (`pbf_fields_roundtrip_dense` + `pbf_dense_row_rep` are the
-    ingredients), and on top of it the file level (framing: C02Pbf.pbf_framing_any_header_size). -/
-theorem pbf_block_roundtrip_partial (k : Nat) (hk : k = 1 ∨ k = 3 ∨ k = 4) (strs : List Bytes) (pls : List Bytes)
+/-- both passes of `PBFPrimitiveBlockDecoder` over the block message "string table, one group of node / way /
+    relation items" return the objects the items decode to (`ItemsDec`: item i, parsed with the block's string
+    table, gives object i — supplied per item by `pbf_bytes_roundtrip_node/way/relation`).  Ingredient of the
+    unconditional `pbf_block_roundtrip` below (the writer invariant provides `ItemsDec`). -/
+theorem pbf_block_decode_items (k : Nat) (hk : k = 1 ∨ k = 3 ∨ k = 4) (strs : List Bytes) (pls : List Bytes)
     (obs : List Object) (hs : ∀ s ∈ strs, s.length ≤ 1024) (hitems : ItemsDec k { strings := strs } pls obs)
     (hpl : ∀ pl ∈ pls, pl.length < 2 ^ 32) :
     decodeBlock {} [fBytes 1 (encodeFields (strs.map (fBytes 1))), fBytes 2 (encodeFields (pls.map (fBytes k)))] = some obs :=
@@ -303,15 +302,60 @@ theorem header_roundtrip (o : Opts) (h : Header) (fs : List Field) (he : encHead
 example : (encHeader {} { generator := [0x67], boxes := [(⟨-1301, -5⟩, ⟨7, 9⟩), (⟨0, -50⟩, ⟨1, 1⟩)] }).isSome = true := by
   decide
 
-/-
-NOT proved in Lean (covered by the correspondence of tools/props/c01_pbf.py: byte-exact writer model incl. the
-block accounting stream `est`, model decoder = real Reader on every produced file, real write → real read =
-project computed in Python):
-  pbf_block_roundtrip / pbf_file_roundtrip without the `ItemsDec` / `RowsRep` hypotheses: need the invariant of
-      `WState.write` "finished blobs ++ current block decode to the projected prefix" (the limit invariant
-      `LimitInv` of Lemmas/PbfWriter.lean is the skeleton; per-item facts: pbf_bytes_roundtrip_*,
-      pbf_dense_row_rep + RowRep.mono; per block: pbf_block_roundtrip_partial, pbf_fields_roundtrip_dense) and
-      the framing step (C02Pbf.pbf_framing_any_header_size).
--/
+/-! ## blocks and files, unconditional -/
+
+/-- The blocks the Writer emits, for EVERY object sequence of the domain (`ObjInDomain`: int64 ids, version / uid
+    < 2^31, uint32 timestamp / changeset, int32 coordinates, member types node / way / relation, strings of at
+    most 1024 bytes; changesets are skipped by the PBF output) and EVERY option vector, provided no `SerializeBlob`
+    reported an error (the 32 MiB guards): there is a split of the projected sequence into consecutive runs
+    `blocks` — one per data blob, in order (`All2`) — such that each blob is the framing of a PrimitiveBlock message
+    whose decoding by `PBFPrimitiveBlockDecoder` (string table pass + data pass; plain and dense groups) gives exactly
+    that run.  Block boundaries are whatever `can_add` chose (type switch, 8000 entities, size estimate): the
+    invariant `WInv` of Lemmas/PbfFileW holds for all of them.
+    `BlobDec f d` = `∃ msg, frameBlob osmData msg = some f ∧ withFields msg (decodeBlock {}) = some d`. -/
+theorem pbf_block_roundtrip (o : Opts) (objs : List Object) (hd : ∀ ob ∈ objs, ObjInDomain ob)
+    (hok : ((objs.foldl (WState.write o) {}).store o).failed = false) :
+    ∃ blocks : List (List Object), objs.filterMap (project o) = blocks.flatten ∧
+      All2 BlobDec ((objs.foldl (WState.write o) {}).store o).out.reverse blocks :=
+  writer_blobs_decode o objs hd hok
+
+/-- … and at any moment the block under construction decodes to the objects it holds, as soon as it is non-empty
+    and its message passes the 32 MiB guard (`BlockInv` is what `WState.write` maintains for it) -/
+theorem pbf_block_roundtrip_current (o : Opts) (b : Block) (dec : List Object) (hb : BlockInv o b dec)
+    (hc : b.count ≠ 0) (hlen : (b.message o).length ≤ PbfFraming.maxUncompressedBlobSize) :
+    withFields (b.message o) (decodeBlock {}) = some dec :=
+  blockInv_message_decode o b dec hb hc hlen
+
+/-- The file: whenever the Writer reports no error (`encodeFile … = some bs`: valid header box, every message and
+    every Blob within 32 MiB — fixes 9b8b2e0, 77d5451), the Reader (`PBFParser::run`: header blob, then all data
+    blobs; any `inflate`, it is not used for uncompressed blobs) returns the projected header and the projected
+    objects in order — for ALL option vectors, headers and object sequences of the domain.
+    Before fix 77d5451 this was false (messages of 32 MiB − 4 … 32 MiB bytes were written and then refused with
+    "invalid blob size"; regression probe `pbf-blob-size-gap`). -/
+theorem pbf_file_roundtrip (inflate : Nat → Bytes → Nat → Option Bytes) (o : Opts) (h : Header) (objs : List Object)
+    (bs : Bytes) (hd : ∀ ob ∈ objs, ObjInDomain ob) (henc : encodeFile o h objs = some bs) :
+    decodeFile inflate {} bs = some (projectHeader o h, objs.filterMap (project o)) := by
+  cases he : encHeader o h with
+  | none => simp [encodeFile, he] at henc
+  | some hf => exact file_roundtrip inflate o h objs bs hf _ he (header_roundtrip o h hf he) henc hd
+
+/-- non-vacuity: a history file with a header box, dense nodes (one deleted), a way, a relation and again a node
+    (three type switches, four blobs), through the models -/
+example :
+    let o : Opts := { history := true }
+    let h : Header := { generator := [0x67], boxes := [(⟨-1301, -5⟩, ⟨7, 9⟩)] }
+    let objs : List Object :=
+      [.node { id := 1, version := 1, user := [0x75], tags := [⟨[0x6b], [0x76]⟩] } ⟨10, 20⟩,
+       .node { id := -5, version := 2, visible := false, uid := 7 } ⟨-30, 40⟩,
+       .way { id := 9223372036854775807, uid := 2147483647 } [⟨1, ⟨1, 2⟩⟩, ⟨-9223372036854775807, Location.undefined⟩],
+       .relation { id := 3, changeset := 4294967295, timestamp := 4294967295 } [⟨1, 5, [0x72]⟩, ⟨3, -5, []⟩],
+       .node { id := 7 } ⟨0, 0⟩]
+    (∀ ob ∈ objs, ObjInDomain ob) ∧
+    (encodeFile o h objs).bind (decodeFile noInflate {}) = some (projectHeader o h, objs.filterMap (project o)) := by
+  refine ⟨?_, by decide +kernel⟩
+  intro ob hob
+  simp only [List.mem_cons, List.not_mem_nil, or_false] at hob
+  rcases hob with rfl | rfl | rfl | rfl | rfl <;>
+    simp [ObjInDomain, MetaInDomain, IdOk, LocOk, MetaStrOk, WayInDomain, RelInDomain, Location.undefined]
 
 end Osmium.Pbf
